@@ -1,3 +1,173 @@
-(** C15 - Library graph families. Statements only (provisional). *)
-From Coq Require Import ZArith List.
-From V Require Import Base Perm Families FamiliesRun.
+(** C15 - Library graph families. Only statements; every proof is [exact] of a lemma proved elsewhere.
+
+    Part 1 (general in n, no bound): for the index-list families the constructor succeeds inside its
+    documented range, returns the documented NUMBER of generators, every generator is a permutation of
+    length n, and its ACTION on an arbitrary sequence x of length n (library convention
+    new[j] = old[p[j]], [apply_perm]) is the documented one.
+    Part 2 (all families, bounded, exhaustive, bound in the statement): [family_ok] by [vm_compute]. *)
+From Coq Require Import ZArith List Arith.
+From V Require Import Base Perm PermProofs Def Families FamiliesRun FamiliesOk FamiliesProofs FamiliesBounded
+                      FamiliesBoundedMatrix.
+Import ListNotations.
+Open Scope nat_scope.
+
+(* ------------------------------------------------------------------------------------------------ *)
+(* lrx(n, k), n >= 3, 1 <= k < n: L, R, X = shift left, shift right, swap of elements 0 and k *)
+Theorem C15_lrx : forall n k, 3 <= n -> 1 <= k < n ->
+  exists d, lrx (Z.of_nat n) (Z.of_nat k) = Ok d /\ length (p_gens d) = 3 /\ Forall (PermN n) (p_gens d) /\
+    forall (A : Type) (dflt : A) (x : list A), length x = n ->
+      map (fun p => apply_perm dflt p x) (p_gens d) = [shift_left x; shift_right x; swap_at dflt x 0 k].
+Proof. exact lrx_documented. Qed.
+Print Assumptions C15_lrx.
+
+(* lx(n), n >= 3: left shift and swap of the first two elements; documented as NOT inverse-closed *)
+Theorem C15_lx : forall n, 3 <= n ->
+  exists d, lx (Z.of_nat n) = Ok d /\ length (p_gens d) = 2 /\ Forall (PermN n) (p_gens d) /\
+    (forall (A : Type) (dflt : A) (x : list A), length x = n ->
+      map (fun p => apply_perm dflt p x) (p_gens d) = [shift_left x; swap_at dflt x 0 1]) /\
+    is_some (perm_inverse_map (p_gens d)) = false.
+Proof. exact lx_documented. Qed.
+Print Assumptions C15_lx.
+
+(* top_spin(n, k), n >= k >= 2: shift left, shift right, reversal of the first k elements *)
+Theorem C15_top_spin : forall n k, 2 <= k <= n ->
+  exists d, top_spin (Z.of_nat n) (Z.of_nat k) = Ok d /\ length (p_gens d) = 3 /\ Forall (PermN n) (p_gens d) /\
+    forall (A : Type) (dflt : A) (x : list A), length x = n ->
+      map (fun p => apply_perm dflt p x) (p_gens d) = [shift_left x; shift_right x; rev_prefix k x].
+Proof. exact top_spin_documented. Qed.
+Print Assumptions C15_top_spin.
+
+(* pancake(n), n >= 2: n-1 generators R1..R(n-1); Ri reverses the elements 0..i *)
+Theorem C15_pancake : forall n, 2 <= n ->
+  exists d, pancake (Z.of_nat n) = Ok d /\ length (p_gens d) = n - 1 /\ length (p_names d) = n - 1 /\
+    Forall (PermN n) (p_gens d) /\
+    forall (A : Type) (dflt : A) (x : list A) i, length x = n -> 1 <= i <= n - 1 ->
+      apply_perm dflt (nth (i - 1) (p_gens d) []) x = rev (firstn (i + 1) x) ++ skipn (i + 1) x.
+Proof. exact pancake_documented. Qed.
+Print Assumptions C15_pancake.
+
+(* coxeter(n), n >= 2: n-1 generators (0,1), (1,2), ..., (n-2,n-1) *)
+Theorem C15_coxeter : forall n, 2 <= n ->
+  exists d, coxeter (Z.of_nat n) = Ok d /\ length (p_gens d) = n - 1 /\ length (p_names d) = n - 1 /\
+    Forall (PermN n) (p_gens d) /\
+    forall (A : Type) (dflt : A) (x : list A) i, length x = n -> i < n - 1 ->
+      apply_perm dflt (nth i (p_gens d) []) x = swap_at dflt x i (i + 1).
+Proof. exact coxeter_documented. Qed.
+Print Assumptions C15_coxeter.
+
+(* cyclic_coxeter(n), n >= 2: n generators (0,1), ..., (n-2,n-1), (0,n-1) *)
+Theorem C15_cyclic_coxeter : forall n, 2 <= n ->
+  exists d, cyclic_coxeter (Z.of_nat n) = Ok d /\ length (p_gens d) = n /\ length (p_names d) = n /\
+    Forall (PermN n) (p_gens d) /\
+    forall (A : Type) (dflt : A) (x : list A), length x = n ->
+      (forall i, i < n - 1 -> apply_perm dflt (nth i (p_gens d) []) x = swap_at dflt x i (i + 1)) /\
+      apply_perm dflt (nth (n - 1) (p_gens d) []) x = swap_at dflt x 0 (n - 1).
+Proof. exact cyclic_coxeter_documented. Qed.
+Print Assumptions C15_cyclic_coxeter.
+
+(* stars(n), n >= 3: the n-1 transpositions (0 i) *)
+Theorem C15_stars : forall n, 3 <= n ->
+  exists d, stars (Z.of_nat n) = Ok d /\ length (p_gens d) = n - 1 /\ length (p_names d) = n - 1 /\
+    Forall (PermN n) (p_gens d) /\
+    forall (A : Type) (dflt : A) (x : list A) i, length x = n -> 1 <= i <= n - 1 ->
+      apply_perm dflt (nth (i - 1) (p_gens d) []) x = swap_at dflt x 0 i.
+Proof. exact stars_documented. Qed.
+Print Assumptions C15_stars.
+
+(* all_transpositions(n), n >= 2: exactly the n(n-1)/2 transpositions *)
+Theorem C15_all_transpositions : forall n, 2 <= n ->
+  exists d, all_transpositions (Z.of_nat n) = Ok d /\ 2 * length (p_gens d) = n * (n - 1) /\
+    length (p_names d) = length (p_gens d) /\ Forall (PermN n) (p_gens d) /\
+    (forall p, In p (p_gens d) <-> exists i j, i < j < n /\ p = transp n i j) /\
+    forall (A : Type) (dflt : A) (x : list A) i j, length x = n -> i < j < n ->
+      apply_perm dflt (transp n i j) x = swap_at dflt x i j.
+Proof. exact all_transpositions_documented. Qed.
+Print Assumptions C15_all_transpositions.
+
+(* full_reversals(n), n >= 2: exactly the n(n-1)/2 reversals of a substring x[i..j] *)
+Theorem C15_full_reversals : forall n, 2 <= n ->
+  exists d, full_reversals (Z.of_nat n) = Ok d /\ 2 * length (p_gens d) = n * (n - 1) /\
+    length (p_names d) = length (p_gens d) /\ Forall (PermN n) (p_gens d) /\
+    (forall p, In p (p_gens d) <-> exists i j, i < j < n /\ p = gen_rev_segment n i j) /\
+    forall (A : Type) (dflt : A) (x : list A) i j, length x = n -> i < j < n ->
+      apply_perm dflt (gen_rev_segment n i j) x
+      = firstn i x ++ rev (firstn (j + 1 - i) (skipn i x)) ++ skipn (j + 1) x.
+Proof. exact full_reversals_documented. Qed.
+Print Assumptions C15_full_reversals.
+
+(* down_cycles(n), n >= 2: exactly the n(n-1)/2 cycles (i, i+1, ..., j); each rotates x[i..j] by one *)
+Theorem C15_down_cycles : forall n, 2 <= n ->
+  exists d, down_cycles (Z.of_nat n) = Ok d /\ 2 * length (p_gens d) = n * (n - 1) /\
+    length (p_names d) = length (p_gens d) /\ Forall (PermN n) (p_gens d) /\
+    (forall p, In p (p_gens d) <-> exists i j, i < j < n /\ p = gen_cycle n i j) /\
+    forall (A : Type) (dflt : A) (x : list A) i j, length x = n -> i < j < n ->
+      apply_perm dflt (gen_cycle n i j) x
+      = firstn i x ++ firstn (j - i) (skipn (i + 1) x) ++ firstn 1 (skipn i x) ++ skipn (j + 1) x.
+Proof. exact down_cycles_documented. Qed.
+Print Assumptions C15_down_cycles.
+
+(* prefix_cycles(n), n >= 2: the n-1 cycles (0 1 ... j-1), j = 2..n *)
+Theorem C15_prefix_cycles : forall n, 2 <= n ->
+  exists d, prefix_cycles (Z.of_nat n) = Ok d /\ length (p_gens d) = n - 1 /\ length (p_names d) = n - 1 /\
+    Forall (PermN n) (p_gens d) /\
+    forall (A : Type) (dflt : A) (x : list A) j, length x = n -> 2 <= j <= n ->
+      nth (j - 2) (p_gens d) [] = gen_cycle n 0 (j - 1) /\
+      apply_perm dflt (nth (j - 2) (p_gens d) []) x = rot_segment 0 (j - 1) x.
+Proof. exact prefix_cycles_documented. Qed.
+Print Assumptions C15_prefix_cycles.
+
+(* consecutive_k_cycles(n, k), 1 <= k <= n: the n-k+1 cycles (i, i+1, ..., i+k-1), i = 0..n-k *)
+Theorem C15_consecutive_k_cycles : forall n k, 1 <= k <= n ->
+  exists d, consecutive_k_cycles (Z.of_nat n) (Z.of_nat k) = Ok d /\
+    length (p_gens d) = n - k + 1 /\ length (p_names d) = n - k + 1 /\ Forall (PermN n) (p_gens d) /\
+    forall (A : Type) (dflt : A) (x : list A) i, length x = n -> i <= n - k ->
+      nth i (p_gens d) [] = gen_cycle n i (i + k - 1) /\
+      apply_perm dflt (nth i (p_gens d) []) x = rot_segment i (i + k - 1) x.
+Proof. exact consecutive_k_cycles_documented. Qed.
+Print Assumptions C15_consecutive_k_cycles.
+
+(* the permutation written gen_cycle n i j IS the cycle (i, i+1, ..., j): t -> t+1 for i <= t < j, j -> i *)
+Theorem C15_gen_cycle_is_the_cycle : forall n i j x, i <= j -> j < n -> x < n ->
+  nth x (gen_cycle n i j) 0 = if x <? i then x else if x <? j then x + 1 else if x =? j then i else x.
+Proof. exact gen_cycle_is_the_cycle. Qed.
+Print Assumptions C15_gen_cycle_is_the_cycle.
+
+(* ------------------------------------------------------------------------------------------------ *)
+(* what the boolean acceptance check means *)
+Theorem C15_family_ok_meaning : forall c, pcall_ok c = true ->
+  match run_pcall c with
+  | Err _ => pexpect c = None
+  | Ok d => exists size count closed, pexpect c = Some (size, count, closed) /\
+      Forall (fun p => Perm p /\ length p = size) (p_gens d) /\
+      length (p_gens d) = count /\ length (p_names d) = count /\
+      p_central d = zrange 0 (Z.of_nat size) /\
+      (closed = true <-> forall p, In p (p_gens d) -> In (inverse_perm p) (p_gens d))
+  end.
+Proof. exact pcall_ok_sound. Qed.
+Print Assumptions C15_family_ok_meaning.
+
+(* ALL deterministic permutation families, every parameter tuple with n in -1..bound (bound per family):
+   the constructor raises exactly outside its range; inside, every generator is a permutation of the
+   documented size, the count is the documented formula, the inverse-closed flag is the documented one *)
+Theorem C15_perm_families_ok_bounded :
+  pfamilies_ok
+    [(FAllTranspositions, 12); (FTransposons, 10); (FBlockInterchange, 9); (FFullReversals, 12);
+     (FSignedReversals, 9); (FLrx, 12); (FLx, 16); (FTopSpin, 12); (FCoxeter, 16); (FCyclicCoxeter, 16);
+     (FPancake, 16); (FCubicPancake, 12); (FBurntPancake, 12); (FThreeCycles, 9); (FThreeCycles0ij, 10);
+     (FThreeCycles01i, 16); (FDerangements, 7); (FInvolutiveDerangements, 10); (FStars, 16);
+     (FGeneralizedStars, 10); (FRapaportM1, 16); (FRapaportM2, 16); (FAllCycles, 7); (FLslCycles, 16);
+     (FWrappedKCycles, 10); (FLarx, 16); (FIncreasingKCycles, 9); (FSheveleva2, 12); (FKoltsov3, 8);
+     (FConsecutiveKCycles, 10); (FDownCycles, 12); (FPrefixCycles, 16)]%Z = true.
+Proof. exact perm_families_ok_bounded. Qed.
+Print Assumptions C15_perm_families_ok_bounded.
+
+(* conjugacy_classes(n, {lens: None}) is exactly the conjugacy class, for every partition of every m <= n <= 7 *)
+Theorem C15_conjugacy_classes_ok_upto_7 : conj_ok_upto 7 = true.
+Proof. exact conjugacy_classes_ok_upto_7. Qed.
+Print Assumptions C15_conjugacy_classes_ok_upto_7.
+
+(* matrix families: n in -1..bound, modulo in test_moduli (valid and invalid), add_inverses both *)
+Theorem C15_matrix_families_ok_bounded :
+  mfamilies_ok [(FHeisenberg, 5); (FSlFundRoots, 4); (FSlRootWeyl, 5)]%Z = true.
+Proof. exact matrix_families_ok_bounded. Qed.
+Print Assumptions C15_matrix_families_ok_bounded.
